@@ -7,6 +7,8 @@ CHK = '''Open Scope Z_scope.
 Definition chk (b : bool) : bool := b.
 Definition sig_beq (a b : list (list Z)) : bool := list_beq (list_beq Z.eqb) a b.
 Definition closeq (x y : Q) : bool := Qle_bool (Qabs (x - y)) ((1 # 1000000000) * (1 + Qabs y)).
+Definition dropout_ok det rate shape bd bits xs ys : bool :=
+  let m := dropout det rate shape bd bits xs in Nat.eqb (length m) (length ys) && forallb (fun ab => closeq (fst ab) (snd ab)) (combine ys m).
 '''
 
 
@@ -191,6 +193,30 @@ def row(c, r):
       parts.append('group_norm_ok (1 # 100000000) %s %s %s %s %s %s %s' % (
           cq(c['epsilon']), cbool(kind != 'rms'), clist([cZ(int(xf[i])) for i in grp]), clist([cbool(bool(mk[i])) for i in grp]),
           clist([cqz(sc[i]) for i in grp]), clist([cqz(bi[i]) for i in grp]), clist([cq(y[i]) if mk[i] else '0%Q' for i in grp])))
+    return '(' + ' && '.join(parts) + ')' if parts else None
+  if layer == 'dropout':
+    x = np.array(c['x'], dtype=np.int64)
+    nd = x.ndim
+    shape = clist([cnat(int(d)) for d in x.shape])
+    bd = clist(['(%s, %s)' % (cbool(d < 0), cnat(abs(d))) for d in c['broadcast_dims']])
+    xs = clist(['(%d # 1)%%Q' % int(v) for v in x.reshape(-1)])
+    parts = []
+    for api in ('linen', 'nnx', 'linen_rng'):
+      got = r.get(api)
+      if got is None or 'ok' not in got:
+        continue
+      y = np.array(got['ok']['data']).reshape(got['ok']['shape'])
+      if list(y.shape) != list(x.shape):
+        return 'false'
+      if api == 'linen_rng' and 'bits_rng' in r:
+        bits = r['bits_rng']              # drawn by the harness for the same key, independently of the layer
+      else:
+        m = (y != 0)                      # inputs are non-zero: the surviving positions are the mask
+        for d in c['broadcast_dims']:
+          m = np.take(m, [0], axis=d % nd)
+        bits = [bool(v) for v in m.reshape(-1)]
+      parts.append('dropout_ok %s %s %s %s %s %s %s' % (cbool(c['deterministic']), cq(c['rate']), shape, bd, clist([cbool(b) for b in bits]), xs,
+                                                         clist([cq(v) for v in y.reshape(-1)])))
     return '(' + ' && '.join(parts) + ')' if parts else None
   if layer == 'norm' and c['kind'] == 'batch':
     x = np.array(c['x'], dtype=np.int64)
